@@ -1341,6 +1341,9 @@ func corpus() []cfgCase {
 		// F-C02r at configuration level
 		mk("ip access-list extended e0_in\n deny ip 10.1.0.0 0.0.255.255 any\n remark n1\n permit ip 10.1.0.0 0.0.255.255 any\n permit tcp 10.1.0.0 0.0.255.255 any\n deny ip any any\n"+e0+" ip access-group e0_in in\n",
 			"ip access-list extended e0_in\n permit tcp 10.1.0.0 0.0.255.255 any\n remark n1\n deny ip 10.1.0.0 0.0.255.255 any\n permit ip 10.1.0.0 0.0.255.255 any\n"+e0+" ip access-group e0_in in\n"),
+		// F-C02r together with route changes in the managed VRF: only the ACL may differ afterwards (docs/ORACLE_AUDIT.md item 18)
+		mk("ip access-list extended e0_in\n deny ip 10.1.0.0 0.0.255.255 any\n remark n1\n permit ip 10.1.0.0 0.0.255.255 any\n permit tcp 10.1.0.0 0.0.255.255 any\n deny ip any any\n"+e0+" ip access-group e0_in in\nip route 10.8.0.0 255.255.0.0 10.1.1.253\nip route 10.7.0.0 255.255.0.0 10.1.1.254\n",
+			"ip access-list extended e0_in\n permit tcp 10.1.0.0 0.0.255.255 any\n remark n1\n deny ip 10.1.0.0 0.0.255.255 any\n permit ip 10.1.0.0 0.0.255.255 any\n"+e0+" ip access-group e0_in in\nip route 10.8.0.0 255.255.0.0 10.1.1.254\n"),
 		// F-C02 (repaired): move into an insert range with mixed actions must not be suppressed
 		mk("ip access-list extended e0_in\n permit tcp 10.1.0.0 0.0.255.255 any eq 80\n permit udp any any eq 53\n permit tcp 10.2.0.0 0.0.255.255 any eq 80\n permit tcp host 10.1.2.3 any eq 22\n"+e0+" ip access-group e0_in in\n",
 			"ip access-list extended e0_in\n permit tcp 10.1.0.0 0.0.255.255 any eq 80\n permit tcp host 10.1.2.3 any eq 22\n deny tcp 10.1.2.0 0.0.0.255 any\n permit udp any any eq 53\n permit tcp 10.2.0.0 0.0.255.255 any eq 80\n"+e0+" ip access-group e0_in in\n"),
